@@ -222,11 +222,11 @@ func hardString(s string) bool {
 
 // ---- numbers ------------------------------------------------------------
 
-var floatClassNames = [...]string{"whole_small", "whole_switch", "zero", "subnormal", "max", "pow10", "near1e-6", "beyond2^53", "randombits", "fraction", "whole_mid"}
+var floatClassNames = [...]string{"whole_small", "whole_switch", "zero", "subnormal", "max", "pow10", "near1e-6", "beyond2^53", "randombits", "fraction", "whole_mid", "decimal_neighbour"}
 
 // GenFloat draws a finite float64 from the class table; returns class index.
 func GenFloat(t *rapid.T) (float64, int) {
-	class := pick(t, "fc", 14, 8, 6, 4, 3, 8, 5, 6, 14, 14, 6)
+	class := pick(t, "fc", 14, 8, 6, 4, 3, 8, 5, 6, 14, 14, 6, 8)
 	var f float64
 	switch class {
 	case 0:
@@ -273,6 +273,17 @@ func GenFloat(t *rapid.T) (float64, int) {
 		f = float64(drawInt(t, -100000, 100000, "num")) / float64([]int{2, 3, 4, 7, 10, 100, 1000, 8}[drawInt(t, 0, 7, "den")])
 	case 10:
 		f = float64(rapid.Int64Range(-1<<52, 1<<52).Draw(t, "wm"))
+	case 11:
+		// 1-3 ulps beside a short decimal (428.09999999999997, 6020.599999999999): a writer that recognises
+		// "two decimals" by a rounded product, or a reader that scales a short mantissa, is off by an ulp here
+		f = float64(drawInt(t, 1, 10000000, "dm")) / []float64{10, 100, 100, 100, 1000, 10000, 1e6, 1e9}[drawInt(t, 0, 7, "dk")]
+		dir := math.Inf(1)
+		if drawBool(t, "down") {
+			dir = math.Inf(-1)
+		}
+		for i, n := 0, drawInt(t, 1, 3, "ulps"); i < n; i++ {
+			f = math.Nextafter(f, dir)
+		}
 	}
 	if class != 8 && oneIn(t, 4, "neg") {
 		f = -f
